@@ -163,6 +163,77 @@ pub fn model(r: &mut Rng, cfg: &LpCfg) -> (LinearModel, Vec<String>) {
     (m, tags)
 }
 
+// ------------------------------------------------------------------------------------------- variants of the code under test
+
+/// Which of the proposed repairs does the code under test contain?  Each repair has its own Lean model variant; the
+/// harness asks for the variant that matches the behaviour observed on one fixed probe input, so that the correspondence
+/// check keeps working before and after a `fixes/*.diff` is applied.  (A third behaviour matches neither variant and is
+/// reported as a correspondence mismatch; the known-finding entry of a repaired defect is switched to `fixed` by the
+/// integrator, so a regression to the old behaviour is reported by the oracle.)
+#[derive(Clone, Copy, Debug)]
+pub struct Variants {
+    /// fixes/C15-milp-status.diff
+    pub milp_reads_status: bool,
+    /// fixes/C05-clarabel-empty-model.diff
+    pub clarabel_empty_handled: bool,
+    /// fixes/C05-clarabel-dual-infeasible.diff
+    pub clarabel_primal_check: bool,
+}
+
+pub fn primal_dual_infeasible_probe() -> LinearModel {
+    let mut m = LinearModel::new();
+    m.add_variable("v0", VariableType::NonNegativeReal(0.0, f64::INFINITY));
+    m.add_variable("v1", VariableType::Real(f64::NEG_INFINITY, f64::INFINITY));
+    m.add_constraint(vec![1.0, 0.0], Comparison::LessOrEqual, 1.0);
+    m.add_constraint(vec![1.0, 0.0], Comparison::GreaterOrEqual, 2.0);
+    m.set_objective(vec![0.0, 1.0], OptimizationType::Min);
+    m
+}
+
+pub fn detect_variants() -> Variants {
+    use crate::child::{solve, Opts, SolverKind};
+    let t = std::time::Duration::from_secs(5);
+    // 5-item knapsack under a 0 ns limit
+    let mut k = LinearModel::new();
+    for i in 0..5 { k.add_variable(&format!("b{}", i), VariableType::Boolean); }
+    k.add_named_constraint(vec![2.0, 3.0, 1.0, 4.0, 3.0], Comparison::LessOrEqual, 7.0, "cap");
+    k.set_objective(vec![5.0, 4.0, 3.0, 7.0, 6.0], OptimizationType::Max);
+    let milp_reads_status = match solve(SolverKind::Milp, &k, &Opts::default().limit_ns(0), t) {
+        Outcome::Solution(s) => s.status != "optimal",
+        Outcome::Err { variant, .. } => variant == "LimitReached",
+        _ => false,
+    };
+    let clarabel_empty_handled = !matches!(solve(SolverKind::Clarabel, &LinearModel::new(), &Opts::default(), t), Outcome::Panic(_));
+    let clarabel_primal_check = matches!(solve(SolverKind::Clarabel, &primal_dual_infeasible_probe(), &Opts::default(), t),
+        Outcome::Err { variant, .. } if variant == "Infeasible");
+    Variants { milp_reads_status, clarabel_empty_handled, clarabel_primal_check }
+}
+
+impl Variants {
+    pub fn tags(&self) -> Vec<String> {
+        vec![
+            format!("variant-milp-{}", if self.milp_reads_status { "reads-status" } else { "ignores-status" }),
+            format!("variant-clarabel-empty-model-{}", if self.clarabel_empty_handled { "handled" } else { "unhandled" }),
+            format!("variant-clarabel-dual-infeasible-{}", if self.clarabel_primal_check { "primal-check" } else { "unchecked" }),
+        ]
+    }
+}
+
+/// the model request for the Clarabel wrapper: raw answer of the mirror, plus (for a dual-infeasible status) the raw
+/// answer of the zero-objective problem the repaired wrapper solves
+pub fn clarabel_req(lm: &LinearModel, lms: &str, v: &Variants, timeout: std::time::Duration) -> Option<String> {
+    use crate::child::{solve, Opts, SolverKind};
+    let raw = solve(SolverKind::RawClarabel, lm, &Opts::default(), timeout);
+    let out = clarabel(&raw)?;
+    let dual_inf = matches!(&raw, Outcome::Solution(s) if s.status == "DualInfeasible" || s.status == "AlmostDualInfeasible");
+    let feas = if dual_inf && v.clarabel_primal_check {
+        let f = LinearModel::new_from_parts(vec![0.0; lm.variables().len()], OptimizationType::Satisfy, 0.0,
+            lm.constraints().clone(), lm.variables().clone(), lm.domain().clone());
+        clarabel(&solve(SolverKind::RawClarabel, &f, &Opts::default(), timeout))?
+    } else { "(cerr unused)".to_string() };
+    Some(format!("clarabel-wrap-v {} {} {} {} {}", v.clarabel_empty_handled as u8, v.clarabel_primal_check as u8, lms, out, feas))
+}
+
 pub fn is_continuous(m: &LinearModel) -> bool {
     m.domain().values().all(|d| matches!(d.get_type(), VariableType::Real(_, _) | VariableType::NonNegativeReal(_, _)))
 }
@@ -204,7 +275,8 @@ pub fn mlp(o: &Outcome) -> Option<String> {
             s.assignment.iter().map(|(_, v)| num(v.as_f64())).collect::<Vec<_>>().join(" "))),
         Outcome::Err { variant, .. } if variant.starts_with("pre:") => Some("(merr pre)".into()),
         Outcome::Err { variant, .. } => Some(format!("(merr {})", variant)),
-        Outcome::Panic(_) => Some("(merr pre)".into()),
+        // a panic inside the dependency propagates through the wrapper; a `pre:` panic is the mirror's own pre-check
+        Outcome::Panic(m) => Some(if m.starts_with("pre:") { "(merr pre)".into() } else { "(merr panic)".into() }),
         Outcome::Hang => None,
     }
 }
@@ -214,7 +286,7 @@ pub fn clarabel(o: &Outcome) -> Option<String> {
             s.assignment.iter().map(|(_, v)| num(v.as_f64())).collect::<Vec<_>>().join(" "), pairs(&s.duals).trim_start())),
         Outcome::Err { variant, .. } if variant.starts_with("pre:") => Some("(cerr pre)".into()),
         Outcome::Err { variant, .. } => Some(format!("(cerr {})", variant)),
-        Outcome::Panic(_) => Some("(cerr pre)".into()),
+        Outcome::Panic(m) => Some(if m.starts_with("pre:") { "(cerr pre)".into() } else { "(cerr panic)".into() }),
         Outcome::Hang => None,
     }
 }
